@@ -52,8 +52,11 @@ fn main() {
     "C07" => dispatch!(props::c07::C07),
     "C08" => dispatch!(props::c08::C08),
     "C09" => dispatch!(props::c09::C09),
+    "C11" => dispatch!(props::c11::C11),
+    "C13" => dispatch!(props::c13::C13),
     "C14" => dispatch!(props::c14::C14),
     "C15" => dispatch!(props::c15::C15),
+    "C20" => dispatch!(props::c20::C20),
     other => {
       eprintln!("no check for property {other}");
       2
